@@ -473,7 +473,7 @@ def coq_eval(requires, exprs, preamble="", batch=400, timeout=900, jobs=NCPU, ta
             fh.write("From Coq Require Import List NArith ZArith String.\nImport ListNotations.\n")
             for r in requires:
                 fh.write("Require Import %s.\n" % r)
-            fh.write("Set Printing Width 1000000.\nSet Printing Depth 1000000.\nOpen Scope N_scope.\n")
+            fh.write("Set Printing Width 1000000.\nSet Printing Depth 1000000.\nUnset Printing Implicit Defensive.\nOpen Scope N_scope.\n")
             fh.write(preamble + "\n")
             for e in es:
                 fh.write("Eval vm_compute in (%s).\n" % e)
@@ -522,6 +522,26 @@ def split_eval_output(out):
     return terms
 
 
+def strip_implicit_args(s):
+    """remove explicit-implicit annotations `(A:=...)` that Coq prints for non-inferable arguments"""
+    while True:
+        m = re.search(r"\(\w+:=", s)
+        if not m:
+            return s
+        depth = 0
+        i = m.start()
+        j = i
+        while j < len(s):
+            if s[j] == "(":
+                depth += 1
+            elif s[j] == ")":
+                depth -= 1
+                if depth == 0:
+                    break
+            j += 1
+        s = s[:i] + s[j + 1:]
+
+
 _TOK = re.compile(r'\s*(\{\||\|\}|:=|[()\[\];,]|"(?:[^"]|"")*"|-?\d+|[A-Za-z_][A-Za-z0-9_\'.]*|%[A-Za-z_]+)')
 
 
@@ -530,7 +550,7 @@ def parse_coq_term(s):
     `C a b` -> ('C', a, b), bare constructor -> 'C', records -> dict, strings -> str."""
     toks = []
     pos = 0
-    s = s.strip()
+    s = strip_implicit_args(s.strip())
     while pos < len(s):
         m = _TOK.match(s, pos)
         if not m:
